@@ -646,4 +646,61 @@ theorem runOps_snoc (live : Live) (ops : List Op) (op : Op) : runOps live (ops +
   rw [List.foldl_append]
   rfl
 
+/-! ## directory symlinks on the live root
+
+A configuration directory may be a symlink on the live root (`/etc/app -> ../srv/appcfg`) while the package ships it as
+a real directory.  `ρ d` is the real directory that the *name* `d` reaches; distinct names reach distinct directories
+(`ρ` injective: no two names of one directory).  The package, CONFIG_PROTECT and the engine's `install` /
+`install_existing` csets speak names (`livefs.intersect` stats `x.location` and keeps it); the kernel writes through the
+links.  `through ρ` = what a names-level object is on the disk. -/
+
+def LiveFile.through (ρ : Path → Path) (f : LiveFile) : LiveFile := { f with dir := ρ f.dir }
+def IEntry.through (ρ : Path → Path) (e : IEntry) : IEntry := { e with dir := ρ e.dir }
+
+theorem filter_through (ρ : Path → Path) (hinj : ∀ a b, ρ a = ρ b → a = b) (l : Live) (d : Path) (b : List Char) :
+    (l.map (LiveFile.through ρ)).filter (fun f => ¬ (f.dir = ρ d ∧ f.base = b)) =
+      (l.filter fun f => ¬ (f.dir = d ∧ f.base = b)).map (LiveFile.through ρ) := by
+  induction l with
+  | nil => rfl
+  | cons x xs ih =>
+    have hiff : (ρ x.dir = ρ d ∧ x.base = b) ↔ (x.dir = d ∧ x.base = b) :=
+      ⟨fun h => ⟨hinj _ _ h.1, h.2⟩, fun h => ⟨by rw [h.1], h.2⟩⟩
+    simp only [List.map_cons, List.filter_cons, LiveFile.through, hiff]
+    split
+    · simp only [List.map_cons, LiveFile.through]; rw [← ih]
+    · exact ih
+
+/-- writing a cset through the links = the names-level merge, seen through the links -/
+theorem mergeFs_through (ρ : Path → Path) (hinj : ∀ a b, ρ a = ρ b → a = b) (live : Live) (install : ICSet) :
+    mergeFs (live.map (LiveFile.through ρ)) (install.map (IEntry.through ρ)) =
+      (mergeFs live install).map (LiveFile.through ρ) := by
+  unfold mergeFs
+  induction install generalizing live with
+  | nil => rfl
+  | cons e es ih =>
+    simp only [List.map_cons, List.foldl_cons]
+    have hf := filter_through ρ hinj live e.dir e.base
+    cases hr : e.isReg
+    · simp only [IEntry.through, hr, Bool.false_eq_true, if_false]
+      rw [hf]; exact ih _
+    · simp only [IEntry.through, hr, if_true]
+      rw [hf]
+      have happ : (live.filter fun (f : LiveFile) => ¬ (f.dir = e.dir ∧ f.base = e.base)).map (LiveFile.through ρ) ++ [(⟨ρ e.dir, e.base, e.content⟩ : LiveFile)] =
+          ((live.filter fun (f : LiveFile) => ¬ (f.dir = e.dir ∧ f.base = e.base)) ++ [(⟨e.dir, e.base, e.content⟩ : LiveFile)]).map (LiveFile.through ρ) := by
+        rw [List.map_append]; rfl
+      rw [happ]; exact ih _
+
+theorem lookup_through (ρ : Path → Path) (hinj : ∀ a b, ρ a = ρ b → a = b) (l : Live) (d : Path) (b : List Char) :
+    Live.lookup (l.map (LiveFile.through ρ)) (ρ d) b = Live.lookup l d b := by
+  unfold Live.lookup
+  induction l with
+  | nil => rfl
+  | cons x xs ih =>
+    have hiff : (ρ x.dir = ρ d ∧ x.base = b) ↔ (x.dir = d ∧ x.base = b) :=
+      ⟨fun h => ⟨hinj _ _ h.1, h.2⟩, fun h => ⟨by rw [h.1], h.2⟩⟩
+    simp only [List.map_cons, List.find?_cons, LiveFile.through, hiff]
+    split
+    · rfl
+    · exact ih
+
 end Pkgcore.C21
